@@ -2,7 +2,7 @@
    resolvable, history-independent results).  Model: Findall/Model.v; proofs:
    Findall/Proofs.v. *)
 From Coq Require Import List NArith ZArith Bool.
-From N0 Require Import Base.PyStr Base.PyVal N0xml.Util Findall.Util Findall.Model Findall.Proofs.
+From N0 Require Import Base.PyStr Base.PyVal N0xml.Util Findall.Util Findall.Model Findall.Proofs Findall.FanUpProofs.
 Import ListNotations.
 
 (* The model threads the contents of the two mutable default arguments of
@@ -146,3 +146,13 @@ Theorem C19_nonvacuous :
   (exists d, fst (findall_top init_cell ex_tree ex_desc) = Ok (Some d) /\ length d = 2%nat).
 Proof. exact nonvacuous. Qed.
 Print Assumptions C19_nonvacuous.
+
+(* '../..' behind a fan-out: //shop/items/sku[text()=B2]/../../currency, the same with items[*] and with items[1] on
+   {"shop": {"currency": "EUR", "items": [{"sku": "A1"}, {"sku": "B2"}]}} all return exactly {'//shop/currency': 'EUR'}:
+   two levels above a leaf of a list element is the owner of the list, however the list step is spelled *)
+Theorem C19_fan_up_example :
+  fst (findall_top init_cell fu_tree fu_name) = fu_expected /\
+  fst (findall_top init_cell fu_tree fu_star) = fu_expected /\
+  fst (findall_top init_cell fu_tree fu_idx) = fu_expected.
+Proof. exact fan_up_example. Qed.
+Print Assumptions C19_fan_up_example.
